@@ -787,3 +787,39 @@ def var_defs(body, name):
         for d in whole:
             out.append((d, simplify(z.rvalue(d.rv, 0, ())) if hasattr(d, 'rv') else simplify(z.call(d))))
     return out
+
+
+def conj_terms(body, t):
+    """terms of a short-circuit conjunction held in a multi-definition bool temporary: for `a && b` MIR assigns
+    `false` on the !a edge and `b` on the a edge. Returns a list of core trees (a, b, ...) or None."""
+    if not (isinstance(t, tuple) and t and t[0] in ('phi', 'var')):
+        return None
+    loc = t[1] if t[0] == 'phi' else t[2]
+    whole, partial = defs_of(body, loc)
+    if partial or len(whole) < 2:
+        return None
+    z = symbolizer(body)
+    terms = []
+    saw_false = False
+    for d in whole:
+        v = simplify(z.rvalue(d.rv, 0, ())) if hasattr(d, 'rv') else simplify(z.call(d))
+        if v[0] == 'const' and v[2] == 0:
+            saw_false = True
+            continue
+        for tt, pol, g in atoms_at(body, d.bb):
+            if pol is True:
+                c = core(tt)
+                if c not in terms:
+                    terms.append(c)
+        sub = conj_terms(body, v)
+        if sub:
+            for c in sub:
+                if c not in terms:
+                    terms.append(c)
+        else:
+            c = core(v)
+            if c not in terms:
+                terms.append(c)
+    if not saw_false:
+        return None
+    return terms
